@@ -61,7 +61,7 @@ ASSUMPTIONS = [
   'therefore neither generated as valid nor as invalid',
 ]
 BUDGET = {'quick': dict(examples=16000, shards=8, max_seconds=60),
-          'thorough': dict(examples=300000, shards=16, max_seconds=540)}
+          'thorough': dict(examples=300000, shards=16, max_seconds=1800)}
 
 US = 1000000
 DAY_US = 86400 * US
